@@ -50,28 +50,34 @@ func init() {
 				return "harness-io-error"
 			}
 			defer os.Remove(path)
-			rng := func(incl bool) string {
-				es, err := pgdump.ReadTuplesInRange(path, &pgdump.BlockRange{Start: lo, End: hi}, incl)
-				if err != nil {
-					return "err"
+			// every view is computed first and held while the others run, then all are rendered: a view handed out must
+			// not change when another one is read (seeded change C09-16: one result buffer shared by all calls)
+			rng := func(r *pgdump.BlockRange, incl bool) func() string {
+				es, err := pgdump.ReadTuplesInRange(path, r, incl)
+				return func() string {
+					if err != nil {
+						return "err"
+					}
+					return idpo(es)
 				}
-				return idpo(es)
 			}
-			rngNil := func(incl bool) string {
-				es, err := pgdump.ReadTuplesInRange(path, nil, incl)
-				if err != nil {
-					return "err"
-				}
-				return idpo(es)
-			}
+			all := pgdump.ReadTuples(b, false)
+			vis := pgdump.ReadTuples(b, true)
+			pf := pgdump.ParseFile(b)
+			rowsAll := pgdump.ReadRows(b, cols, false)
+			rowsVis := pgdump.ReadRows(b, cols, true)
+			del := pgdump.ReadDeletedRows(b, cols)
+			delNo := pgdump.ReadDeletedRows(b, nil)
 			v, d := pgdump.ReadRowsWithDeleted(b, cols)
-			return cRec(kv{"all", idpo(pgdump.ReadTuples(b, false))}, kv{"vis", idpo(pgdump.ReadTuples(b, true))},
-				kv{"parsefile", idpo(pgdump.ParseFile(b))},
-				kv{"rows_all", rowsC(pgdump.ReadRows(b, cols, false))}, kv{"rows_vis", rowsC(pgdump.ReadRows(b, cols, true))},
-				kv{"del", delC(pgdump.ReadDeletedRows(b, cols))}, kv{"del_noschema", delC(pgdump.ReadDeletedRows(b, nil))},
+			ri, re := rng(&pgdump.BlockRange{Start: lo, End: hi}, true), rng(&pgdump.BlockRange{Start: lo, End: hi}, false)
+			ni, ne := rng(nil, true), rng(nil, false)
+			return cRec(kv{"all", idpo(all)}, kv{"vis", idpo(vis)},
+				kv{"parsefile", idpo(pf)},
+				kv{"rows_all", rowsC(rowsAll)}, kv{"rows_vis", rowsC(rowsVis)},
+				kv{"del", delC(del)}, kv{"del_noschema", delC(delNo)},
 				kv{"rwd_v", rowsC(v)}, kv{"rwd_d", rowsC(d)},
-				kv{"range_incl", rng(true)}, kv{"range_excl", rng(false)},
-				kv{"range_nil_incl", rngNil(true)}, kv{"range_nil_excl", rngNil(false)})
+				kv{"range_incl", ri()}, kv{"range_excl", re()},
+				kv{"range_nil_incl", ni()}, kv{"range_nil_excl", ne()})
 		})
 	})
 	register("TupleClass", func(a []string) string {
